@@ -176,6 +176,7 @@ type Endpoint struct {
 	DialsClosed  atomic.Int64
 	DroppedFull  atomic.Int64
 	WriteErr     func(buf []byte, to memberlist.Address) error // fault injection: returned instead of sending
+	ShutdownGate  chan struct{} // if set, Shutdown blocks until it is closed
 }
 
 var _ memberlist.NodeAwareTransport = (*Endpoint)(nil)
@@ -212,6 +213,9 @@ func (e *Endpoint) PacketCh() <-chan *memberlist.Packet { return e.packetCh }
 func (e *Endpoint) StreamCh() <-chan net.Conn           { return e.streamCh }
 
 func (e *Endpoint) Shutdown() error {
+	if g := e.ShutdownGate; g != nil {
+		<-g // tearing sockets down takes time; until it is done the transport still works
+	}
 	e.closed.Store(true)
 	return nil
 }
